@@ -81,3 +81,22 @@ Theorem C16_lex_iterations_linear : forall text file,
 Proof. exact lex_terminates. Qed.
 Print Assumptions C16_lex_iterations_linear.
 ''')
+mk("C07","generated C re-parses to the same AST (parse . generate . parse = parse)","GenExamples"," ParserTables GenTables CSpec TableProofs Generator ParamProofs GenParam",
+'''(* CGenerator never looks at coordinates: for EVERY AST, every renaming or erasure of its coordinates
+   leaves the generated text (and the crash / final-indentation outcome) unchanged - by parametricity
+   of the generator model (all visit_* methods) in the coordinate type *)
+Theorem C07_gen_ignores_coords : forall (A B: Type) (g: A -> B) rp fuel (v: value A),
+  generate B rp fuel (vmap A B g v) = match generate A rp fuel v with
+                                       | GOk x => GOk x | GCrash => GCrash | GFuel => GFuel end.
+Proof. exact gen_ignores_coords. Qed.
+Print Assumptions C07_gen_ignores_coords.
+
+(* the generator's precedence_map is the parser's _BINARY_PRECEDENCE, operator by operator *)
+Theorem C07_precedence_mirrored :
+  forallb (fun e => match punct_kind_l (fst e) with
+                    | Some k => match prec_lookup k with Some p => Nat.eqb p (snd e) | None => false end
+                    | None => false end) gen_precedence_map = true
+  /\\ List.length gen_precedence_map = List.length tbl_BINARY_PRECEDENCE.
+Proof. exact generator_precedence_mirrors_parser. Qed.
+Print Assumptions C07_precedence_mirrored.
+''')
